@@ -133,6 +133,32 @@ def E_det(ctx, lib):
                     continue
                 bad.append("%s in %s" % (flow.fname(p), owner))
     ctx.ob(rule, "no-ambient-nondeterminism", not bad, expected="no clock/thread/env/entropy calls besides Adf::default_rng", found=bad[:5])
+    # (iv) handles are allocation-order numbers: ordering by them (cmp / partial_cmp / < / max / min on Term values, e.g. as a tie-break of a heuristic or a sort key)
+    # makes the order of answers depend on what was built on the shared diagram before.  Equality and the comparison with the constants (is_truth_value) are fine.
+    ordc = []
+    for b in lib.all_bodies:
+        fn = lib.enclosing_fn(b)
+        owner = fn.qual if fn else b.qual
+        if owner.split("::")[0] in ("Term", "BddNode", "Var") and owner.split("::")[-1] in ("cmp", "partial_cmp", "lt", "le", "gt", "ge", "is_truth_value", "is_true", "max", "min", "clamp"):
+            continue   # the derived impls themselves and the constant tests
+        for bb, t, ci in b.calls():
+            if symx.in_log(t.get("exp")):
+                continue
+            p_ = ir.callee_path(ci) or ""
+            nm = flow.last(p_)
+            if nm not in ("cmp", "partial_cmp", "lt", "le", "gt", "ge", "max", "min", "clamp", "sort", "sort_unstable", "sort_by_key", "sort_unstable_by_key", "max_by_key", "min_by_key"):
+                continue
+            tys = [ir.ty_str(a) for a in (ci.get("args") or [])] + [ir.ty_str(o["ty"]) for o in t.get("args", []) if isinstance(o, dict) and o.get("ty")]
+            argt = []
+            for o in t.get("args", []):
+                if o.get("k") in ("copy", "move"):
+                    lt_ = b.locals[o["pl"]["l"]]["ty"] if not o["pl"]["p"] else None
+                    if lt_ is not None:
+                        argt.append(ir.ty_str(lt_))
+            allt = " ".join(tys + argt + [p_])
+            if "datatypes::bdd::Term" in allt and "ModelCounts" not in allt and "BddNode" not in p_:
+                ordc.append("%s in %s" % (flow.fname(p_), owner))
+    ctx.ob(rule, "no-order-on-handles", not ordc, expected="no cmp / < / max / min / sort on Term values outside the derived impls", found=ordc[:4])
 
 
 def check(ctx):
